@@ -32,7 +32,8 @@ RULE += (
 ASSUMPTIONS = ['same canonicalisation argument as C10',
                'fresh comparison enforcers are the implementation itself']
 
-ROLES = ['dp', 'dn', 'dold', 'cn', 'cn2', 'cold', 'f0', 'fold', 'fd', 'rr']
+ROLES = ['dp', 'dn', 'dold', 'cn', 'cn2', 'cold', 'f0', 'fold', 'fd', 'rr',
+         'fb', 'fmain']
 NAMES = ['svc:plain', 'svc:new', 'svc:old', 'svc:chg', 'svc:ref']
 FILES = {
     'x0': {'svc:plain': 'role:f0'},
@@ -53,6 +54,10 @@ TOPOLOGIES = {
     # modification time advancing (cp -p, rsync -t); only a forced reload
     # has to notice that.  'PD...': no main policy file, the rules live in
     # a policy directory
+    # 'M...': a constant, non-empty main policy file AND a policy directory
+    # with two files, of which only the first is ever edited
+    't1maindir': [('MD', False, False)],
+    't2maindir': [('MD', False, False), ('MD', True, True)],
     't1silent': [('A', False, False)],
     't1silentdir': [('PD', False, False)],
     't2silentdir': [('PD', False, False), ('PD', True, False)],
@@ -61,11 +66,12 @@ TOPOLOGIES = {
 BOUNDS = {
     'quick': [('t1', 8), ('t1late', 8), ('t2own', 6), ('t2shared', 8),
               ('t2late', 6), ('t3', 4), ('t1absent', 7), ('t2absent', 5), ('t1silent', 6),
-              ('t1silentdir', 6), ('t2silentdir', 4)],
+              ('t1silentdir', 6), ('t2silentdir', 4), ('t1maindir', 6),
+              ('t2maindir', 4)],
     'thorough': [('t1', 12), ('t1late', 12), ('t2own', 14), ('t2shared', 14),
                  ('t2late', 14), ('t3', 8), ('t1absent', 12),
                  ('t2absent', 10), ('t1silent', 12), ('t1silentdir', 12),
-                 ('t2silentdir', 8)],
+                 ('t2silentdir', 8), ('t1maindir', 12), ('t2maindir', 8)],
 }
 
 
@@ -103,6 +109,8 @@ def snap_shared(shared):
 
 
 def rel_of(d):
+    if d.startswith('M'):
+        return '%s/pd/a.yaml' % d
     return '%s/pd/o.yaml' % d if d.startswith('P') else '%s/policy.yaml' % d
 
 
@@ -123,8 +131,14 @@ class System:
                 if d.islower():
                     self.content[d] = None
                     continue
-                if d.startswith('P'):
+                if d.startswith(('P', 'M')):
                     self.w.mkdir('%s/pd' % d)
+                if d.startswith('M'):
+                    self.w.write('%s/policy.yaml' % d, world.dumps_policy(
+                        {'svc:chg': 'role:fmain'}, 'json'))
+                    self.w.write('%s/pd/b.yaml' % d, world.dumps_policy(
+                        {'svc:plain': 'role:fb', 'svc:new': 'role:fb'},
+                        'json'))
                 self.w.write(rel_of(d),
                              world.dumps_policy(FILES['x0'], 'json'))
                 self.content[d] = 'x0'
@@ -143,7 +157,8 @@ class System:
 
     def make(self, d, end):
         conf = world.new_conf(self.w.path(d),
-                              policy_dirs=['pd'] if d.startswith('P') else [],
+                              policy_dirs=['pd'] if d.startswith(('P', 'M'))
+                              else [],
                               enforce_new_defaults=end)
         e = self.P.Enforcer(conf)
         e.suppress_deprecation_warnings = True
